@@ -1,8 +1,10 @@
 """C03  Every target gets exactly one command; pdsh ends when all are done.
 
 proof:          lean/PdshVerif/Props/C03.lean (LTS of dsh()'s dispatcher/worker/condvar protocol: every schedule,
-                any number of spurious wake-ups, both wait constructs: once_only, none_else, exit_after_all,
-                progress (no lost wake-up), rank (termination with finitely many spurious wake-ups))
+                any number of spurious wake-ups, both wait constructs, EVERY signalling discipline (Dsh/FanG.lean:
+                wake-up call inside | after the critical section, signal | broadcast): once_only, none_else,
+                exit_after_all, progress (no lost wake-up), rank (termination with finitely many spurious wake-ups);
+                composed with the relay of C05 (Dsh/FanRelay.lean): EndToEnd.returns_after_output_delivered)
 correspondence: the unmodified dsh.c under the controlled scheduler (harness/sched) vs the same LTS,
                 compiled (`pdshmodel fan`): every event enabled, threadcount equal, enabled sets equal
 oracle:         monitors of the harness on observable events only: per-host connect count = 1, no connect for
@@ -23,11 +25,16 @@ MANIFEST = dict(
               "wake-ups) + trace correspondence of the unmodified dsh.c under a controlled scheduler against the "
               "compiled LTS",
     text="Theorems in lean/PdshVerif/Props/C03.lean about the labelled transition system of dsh()'s dispatch loop, "
-         "worker epilogue and drain loop (Dsh/Fan.lean), for every fanout >= 1, every N, every schedule, any number "
+         "worker epilogue and drain loop (Dsh/Fan.lean as pinned; Dsh/FanG.lean with the signalling discipline left "
+         "open: each worker's wake-up call inside or after the critical section, signal or broadcast -- section G, "
+         "and the acceptor runs FanG.step), for every fanout >= 1, every N, every schedule, any number "
          "of spurious wake-ups and both wait constructs (`if` as pinned, `while` as repaired): each target's connect "
          "happens at most once and only for targets, dsh() returns only after every target was started and torn "
          "down, until dsh() returns some non-spurious operation is always enabled (no lost wake-up), and every "
-         "non-spurious step decreases a rank (termination with finitely many spurious wake-ups).  The unmodified "
+         "non-spurious step decreases a rank (termination with finitely many spurious wake-ups); composed with the "
+         "relay model of C05 (Dsh/FanRelay.lean), dsh() returns only after every polled stream of every target has "
+         "been written completely, in order, once, under its label (EndToEnd.returns_after_output_delivered, importing "
+         "C05.relay_lossless_any_interleaving).  The unmodified "
          "dsh.c runs under a controlled scheduler (every pthread/libc call wrapped at link time, spurious wake-ups "
          "injected); each run's event trace must be accepted step by step by the same `step` function, with equal "
          "threadcount and equal enabled sets, and is judged by model-independent monitors.",
